@@ -122,6 +122,9 @@ def AllMoves (s : St) (x : XS) : List Prim → Prop
   | .burn _ :: _ => False
   | .kill b :: ps => InRange s x false b ∧ AllMoves s x ps
   | .award k _ :: ps => k < x.yw.length ∧ AllMoves s x ps
+  | .tokIn _ _ _ :: _ => False
+  | .tokSpend _ _ _ :: _ => False
+  | .fee _ _ :: _ => False
 
 instance allMovesDecidable (s : St) (x : XS) : (ps : List Prim) → Decidable (AllMoves s x ps)
   | [] => isTrue trivial
@@ -135,6 +138,25 @@ instance allMovesDecidable (s : St) (x : XS) : (ps : List Prim) → Decidable (A
   | .award k _ :: ps =>
     have := allMovesDecidable s x ps
     inferInstanceAs (Decidable (k < x.yw.length ∧ AllMoves s x ps))
+  | .tokIn _ _ _ :: _ => isFalse (fun h => h)
+  | .tokSpend _ _ _ :: _ => isFalse (fun h => h)
+  | .fee _ _ :: _ => isFalse (fun h => h)
+
+/-- creating token outputs touches only the token pool -/
+theorem addTokOuts_frame (x : XS) (outs : List (Nat × Int)) :
+    (addTokOuts x outs).xb = x.xb ∧ (addTokOuts x outs).xt = x.xt ∧ (addTokOuts x outs).yw = x.yw ∧
+    (addTokOuts x outs).fw = x.fw ∧ (addTokOuts x outs).tunit = x.tunit := by
+  unfold addTokOuts
+  induction outs generalizing x with
+  | nil => exact ⟨rfl, rfl, rfl, rfl, rfl⟩
+  | cons o os ih =>
+    simp only [List.foldl_cons]
+    exact ih _
+
+/-- the token primitives and the fee debit keep every bucket in the observation -/
+theorem inRange_congr {s s' : St} {x x' : XS} (hb : s'.bal.length = s.bal.length) (ht : s'.tok.length = s.tok.length)
+    (hxb : x'.xb = x.xb) (hxt : x'.xt = x.xt) (tok : Bool) (b : Bk) (h : InRange s x tok b) : InRange s' x' tok b := by
+  cases b <;> cases tok <;> simp only [InRange, Bool.false_eq_true, if_false, if_true, hb, ht, hxb, hxt] at h ⊢ <;> exact h
 
 theorem applyPrim_inRange (s : St) (x : XS) (p : Prim) (tok' : Bool) (b' : Bk) (h : InRange s x tok' b') :
     InRange (applyPrim (s, x) p).1 (applyPrim (s, x) p).2 tok' b' := by
@@ -160,6 +182,25 @@ theorem applyPrim_inRange (s : St) (x : XS) (p : Prim) (tok' : Bool) (b' : Bk) (
   | award k w =>
     simp only [applyPrim]
     cases b' <;> cases tok' <;> simp only [InRange, Bool.false_eq_true, if_false, if_true] at h ⊢ <;> exact h
+  | tokIn i w units =>
+    simp only [applyPrim]
+    refine inRange_congr (s := s) (x := x) ?_ ?_ ?_ ?_ tok' b' h <;>
+      first | rfl | simp only [length_addAt] | exact (addTokOuts_frame _ _).1 | exact (addTokOuts_frame _ _).2.1
+  | tokSpend oid outs aout =>
+    cases aout with
+    | none =>
+      simp only [applyPrim]
+      refine inRange_congr (s := s) (x := x) ?_ ?_ ?_ ?_ tok' b' h <;>
+      first | rfl | simp only [length_addAt] | exact (addTokOuts_frame _ _).1 | exact (addTokOuts_frame _ _).2.1
+    | some a =>
+      obtain ⟨a, u, c⟩ := a
+      simp only [applyPrim]
+      refine inRange_congr (s := s) (x := x) ?_ ?_ ?_ ?_ tok' b' h <;>
+      first | rfl | simp only [length_addAt] | exact (addTokOuts_frame _ _).1 | exact (addTokOuts_frame _ _).2.1
+  | fee i u =>
+    simp only [applyPrim]
+    refine inRange_congr (s := s) (x := x) ?_ ?_ ?_ ?_ tok' b' h <;>
+      first | rfl | simp only [length_addAt] | exact (addTokOuts_frame _ _).1 | exact (addTokOuts_frame _ _).2.1
 
 /-- an award touches only the wei part of the observation -/
 theorem applyPrim_award_eq (s : St) (x : XS) (k : Nat) (w : Int) :
@@ -184,6 +225,12 @@ theorem applyPrim_yw_length (s : St) (x : XS) (p : Prim) : (applyPrim (s, x) p).
   | burn b => cases b <;> rfl
   | kill b => cases b <;> rfl
   | award k w => simp only [applyPrim, length_addAt]
+  | tokIn i w units => simp only [applyPrim]; rw [(addTokOuts_frame _ _).2.2.1]
+  | tokSpend oid outs aout =>
+    cases aout with
+    | none => simp only [applyPrim]; rw [(addTokOuts_frame _ _).2.2.1]
+    | some a => obtain ⟨a, u, c⟩ := a; simp only [applyPrim]; rw [(addTokOuts_frame _ _).2.2.1]
+  | fee i u => rfl
 
 theorem allMoves_step (s : St) (x : XS) (p : Prim) (ps : List Prim) (h : AllMoves s x ps) :
     AllMoves (applyPrim (s, x) p).1 (applyPrim (s, x) p).2 ps := by
@@ -201,6 +248,9 @@ theorem allMoves_step (s : St) (x : XS) (p : Prim) (ps : List Prim) (h : AllMove
     | award k w =>
       simp only [AllMoves] at h ⊢
       exact ⟨by rw [applyPrim_yw_length]; exact h.1, ih h.2⟩
+    | tokIn _ _ _ => exact absurd h (by simp [AllMoves])
+    | tokSpend _ _ _ => exact absurd h (by simp [AllMoves])
+    | fee _ _ => exact absurd h (by simp [AllMoves])
 
 /-- **C06 over contract movements (partial).**  A list of moves between observed buckets conserves the native and the token
 total.  This is what every contract transaction of the harness books except SELFDESTRUCT in favour of the contract itself. -/
@@ -231,6 +281,9 @@ theorem applyPrims_conserves (ps : List Prim) (s : St) (x : XS) (h : AllMoves s 
       have h2 := ih (applyPrim (s, x) (.award k w)).1 (applyPrim (s, x) (.award k w)).2 (allMoves_step s x _ ps h.2)
       simp only [applyPrims, List.foldl_cons] at h2 ⊢
       exact ⟨h2.1.trans h1.1, h2.2.trans h1.2⟩
+    | tokIn _ _ _ => exact absurd h (by simp [AllMoves])
+    | tokSpend _ _ _ => exact absurd h (by simp [AllMoves])
+    | fee _ _ => exact absurd h (by simp [AllMoves])
 
 /-! ## blocks: objects destroyed in a block are deleted at its end with what they hold by then -/
 
